@@ -155,7 +155,7 @@ def handleL2 (j : Json) : Except String Json := do
        ("c01", Json.bool (holdsC01e2e q segs o && holdsC01exact segs o)),
        ("c03", Json.bool ((!tagsClean tt || holdsC03 segs o) && holdsC03vals C tt segs args o && holdsC03present args o && inputsCounted && !lost.contains "C03")),
        ("c02", Json.bool (literalsVerbatim segs o)),
-       ("c04", Json.bool (holdsC04rej m o && literalsVerbatim segs o && holdsC04rows C tt segs args o && !lost.contains "C04")),
+       ("c04", Json.bool (holdsC04rej m o && literalsVerbatim segs o && (!c04rowsGuards tt segs || holdsC04rows C tt segs args o) && !lost.contains "C04")),
        ("c05", Json.bool ((!tagsClean tt || holdsC05 segs o) && !lost.contains "C05")),
        ("c07", Json.bool (holdsC07 m o && !wrongReject)),
        ("c08", Json.bool (holdsC08 m o))])
